@@ -4,7 +4,7 @@ quick / thorough = total number of rapid cases over all shards of that tier.
 """
 
 COMMON_ASSUMPTIONS = [
-    "IBC core's write-only-on-successful-ack and baseapp's per-message rollback are reproduced by the harness (DESIGN.md 2.4), not exercised through MsgRecvPacket/DeliverTx",
+    "IBC core's write-only-on-successful-ack is reproduced by the harness (DESIGN.md 2.4), not exercised through MsgRecvPacket; baseapp's per-message rollback is reproduced too and cross-validated against signed transactions through FinalizeBlock for admin histories (Test*RealTransactions)",
     "one configuration family of the external modules (harness genesis, DESIGN.md 2.3); pinned ibc-go/bank/CCTP/FTF/warp behaviour is trusted",
     "decided on the generated cases only: no absence proof",
 ]
@@ -106,7 +106,10 @@ PROPERTIES = {
                 "identical ack and ledger delta. Non-trivial = a probe executed while >= 1 pause entry exists; distinct by (paused sets, destination).",
         "assumptions": COMMON_ASSUMPTIONS + ["an empty counterparty batch is a re-synchronisation step (the statement does not say what it means)",
                                              "counterparty ids come from the canonical and the clearly invalid region; the lenient region is C20's subject"],
-        "tests": [{"test": "TestC08History", "quick": 300, "thorough": 40000}],
+        "tests": [
+            {"test": "TestC08History", "quick": 300, "thorough": 40000},
+            {"test": "TestC08RealTransactions", "quick": 60, "thorough": 3200},
+        ],
     },
     "C09": {
         "level": "exploration",
@@ -116,7 +119,10 @@ PROPERTIES = {
                 "containing a paused action => error ack and empty ledger delta; otherwise identical ack and ledger delta. "
                 "Non-trivial = a probe executed while >= 1 action is paused; distinct by (paused set, probe).",
         "assumptions": COMMON_ASSUMPTIONS + ["PROD world has the fee controller only; the swap half is checked in the LAB world (C06 tests) when built"],
-        "tests": [{"test": "TestC09History", "quick": 300, "thorough": 40000}],
+        "tests": [
+            {"test": "TestC09History", "quick": 300, "thorough": 40000},
+            {"test": "TestC09RealTransactions", "quick": 40, "thorough": 1600},
+        ],
     },
     "C18": {
         "level": "exploration",
@@ -126,7 +132,10 @@ PROPERTIES = {
                 "must report the last successfully set value. Non-trivial = a probe pair straddling a non-zero limit after >= 1 update; "
                 "distinct by (number of updates, limit, length).",
         "assumptions": COMMON_ASSUMPTIONS + ["limits above 64 KiB are probed from below only"],
-        "tests": [{"test": "TestC18History", "quick": 300, "thorough": 30000}],
+        "tests": [
+            {"test": "TestC18History", "quick": 300, "thorough": 30000},
+            {"test": "TestC18RealTransactions", "quick": 40, "thorough": 1600},
+        ],
     },
     "C11": {
         "level": "exploration",
